@@ -276,7 +276,9 @@ func (d *HeadingDetector) detectBodyFontSize(paragraphs []Paragraph) float64 {
 	maxCount := 0
 	mostCommonBucket := 0
 	for bucket, count := range fontCounts {
-		if count > maxCount {
+		// A tie goes to the smaller size (body text is not the larger one), so
+		// that the result does not depend on map iteration order
+		if count > maxCount || (count == maxCount && bucket < mostCommonBucket) {
 			maxCount = count
 			mostCommonBucket = bucket
 		}
